@@ -104,6 +104,12 @@ fn gen_cycles(rng: &mut Rng, n: usize) -> Vec<usize> {
         if rng.chance(1, 6) {
             v.push(c); // duplicate
         }
+        if rng.chance(1, 4) {
+            // runs of adjacent cycles (a key "held" over several cycles is still one trigger per listed cycle)
+            for k in 1..=(1 + rng.below(3) as usize) {
+                v.push(c + k);
+            }
+        }
     }
     v
 }
@@ -425,6 +431,24 @@ fn emit_line(out: &mut Out, line: &str) -> String {
 pub fn run_c12(out: &mut Out, seed: u64, thorough: bool) {
     let mut rng = Rng::new(seed);
     let pool = program_pool();
+    // directed: interrupts on two / three adjacent cycles at every position of a short run of a program that
+    // enables the key interrupt late, serves it in a routine and counts the entries in FF
+    {
+        let prog = "#! mrasm\n JR MAIN\nISR:\n INC R2\n ST (0xFF), R2\n RETI\nMAIN:\n LDSP 0xEF\n NOP\n NOP\n BITS (0xF9), 1\n EI\nLOOP:\n INC R0\n JR LOOP\n";
+        let cfg = gen_cfg(&mut rng);
+        let n = 140usize;
+        let step = if thorough { 1 } else { 2 };
+        let mut k = 0usize;
+        while k < n {
+            for ints in [vec![k, k + 1], vec![k, k + 1, k + 2], vec![k, k + 2], vec![k + 1, k]] {
+                let args = format!("{} {} {} - {}", hexs(prog.as_bytes()), n, csv(&ints), cfg_str(&cfg.c));
+                emit_line(out, &format!("spec.runner {}", args));
+                emit_line(out, &format!("spec.stepped {}", args));
+                out.count("adjacent-interrupts");
+            }
+            k += step;
+        }
+    }
     out.notes.insert("program-pool".into(), format!("{} files from programs/ and testing/programs/", pool.len()));
     let n_cases = if thorough { 12000 } else { 1200 };
     for i in 0..n_cases {
